@@ -275,5 +275,108 @@ def dec (c : BlockCipher) (counter : Option (List Nat)) (C : List Nat) : Except 
   | .ok P => if P.length ≠ C.length then .error "AssertionError" else .ok P
 end CTR
 
+/-! ### one CTR object through a sequence of calls
+
+  What a `CTR(cipher,counter)` object keeps between calls, as far as its methods read or write it: the counter object in
+  `self.counter` (`bytesize`, `nonce`, `count0`) and that object's running `count` attribute, which exists only after the
+  first `reset()`.  Every `enc` starts with `self.counter.reset()` and `self.pad.reset()`; no key stream, counter block or
+  message block survives a call.  The public routes that change the counter in force: `obj.counter.setup(nonce,count)`,
+  `obj.counter = DefaultCounter(obj.len[,iv])`, and (without effect on the next `enc`) `obj.counter.reset()` / `obj.counter()`. -/
+
+/-- `DefaultCounter.setup(nonce=None,count=None)`: zero halves of `bytesize//2` bytes for absent arguments; `count` is not touched -/
+def DefaultCounter.setup (d : DefaultCounter) (nonce count : Option (List Nat)) : DefaultCounter :=
+  { d with nonce := nonce.getD (List.replicate (d.bytesize / 2) 0), count0 := count.getD (List.replicate (d.bytesize / 2) 0) }
+
+/-- the loop of `ctrBlocks` together with the counter's `count` attribute when the loop ends (normally, or by an exception of
+    the cipher right after the counter was called) -/
+def ctrRun (c : BlockCipher) (d : DefaultCounter) : Bits → List (List Nat) → Except Err (List (List Nat)) × Bits
+  | cnt, [] => (.ok [], cnt)
+  | cnt, b :: bs =>
+    match c.enc (d.call cnt).1 with
+    | .error e => (.error e, (d.call cnt).2)
+    | .ok k =>
+      match ctrRun c d (d.call cnt).2 bs with
+      | (.error e, cnt') => (.error e, cnt')
+      | (.ok r, cnt') => (.ok (xorstr b k :: r), cnt')
+
+namespace CTR
+
+/-- `self.counter` and its `count` attribute (`none`: no `reset()` yet) -/
+structure Obj where
+  counter : DefaultCounter
+  count : Option Bits := none
+deriving Repr, DecidableEq
+
+/-- `CTR(cipher,counter)` with `counter` None or bytes -/
+def Obj.new (c : BlockCipher) (counter : Option (List Nat)) : Except Err Obj :=
+  match mkPad c .no with
+  | .error e => .error e
+  | .ok _ =>
+    match DefaultCounter.new c.len counter with
+    | .error e => .error e
+    | .ok d => .ok ⟨d, none⟩
+
+/-- `obj.enc(M)`: the result (or exception) and the object afterwards -/
+def Obj.enc (c : BlockCipher) (o : Obj) (M : List Nat) : Except Err (List Nat) × Obj :=
+  match mkPad c .no with
+  | .error e => (.error e, o)
+  | .ok p =>
+    let it := iter p M
+    let r := ctrRun c o.counter o.counter.reset it.1
+    let o' : Obj := { o with count := some r.2 }
+    match r.1 with
+    | .error e => (.error e, o')
+    | .ok C =>
+      match it.2 with
+      | some e => (.error e, o')
+      | none => (.ok (join C), o')
+
+/-- `obj.dec(C)`: `self.counter.reset(); self.pad.reset(); P = self.enc(C); assert len(P)==len(C)` -/
+def Obj.dec (c : BlockCipher) (o : Obj) (C : List Nat) : Except Err (List Nat) × Obj :=
+  let r := o.enc c C
+  match r.1 with
+  | .error e => (.error e, r.2)
+  | .ok P => if P.length ≠ C.length then (.error "AssertionError", r.2) else (.ok P, r.2)
+
+/-- one public call on the object -/
+inductive Step where
+  | enc (M : List Nat)
+  | dec (C : List Nat)
+  | setup (nonce count : Option (List Nat))      -- `obj.counter.setup(nonce,count)`
+  | assign (iv : Option (List Nat))              -- `obj.counter = DefaultCounter(obj.len,iv)`
+  | reset                                        -- `obj.counter.reset()`
+  | call                                         -- `obj.counter()`
+deriving Repr
+
+/-- what the call returns: bytes (or an exception), nothing (or an exception), a counter block or None -/
+inductive Out where
+  | bytes (r : Except Err (List Nat))
+  | unit (r : Except Err Unit)
+  | block (r : Option (List Nat))
+
+def Obj.step (c : BlockCipher) (o : Obj) : Step → Out × Obj
+  | .enc M => let r := o.enc c M; (.bytes r.1, r.2)
+  | .dec C => let r := o.dec c C; (.bytes r.1, r.2)
+  | .setup nonce count => (.unit (.ok ()), { o with counter := o.counter.setup nonce count })
+  | .assign iv =>
+    match DefaultCounter.new c.len iv with
+    | .error e => (.unit (.error e), o)
+    | .ok d => (.unit (.ok ()), ⟨d, none⟩)
+  | .reset => (.unit (.ok ()), { o with count := some o.counter.reset })
+  | .call =>
+    match o.count with
+    | none => (.block none, o)                   -- AttributeError caught inside `__call__`: a message is printed, None returned
+    | some cnt => (.block (some (o.counter.call cnt).1), { o with count := some (o.counter.call cnt).2 })
+
+/-- a history of calls: the outputs and the object afterwards -/
+def Obj.run (c : BlockCipher) : Obj → List Step → List Out × Obj
+  | o, [] => ([], o)
+  | o, s :: ss =>
+    let r := o.step c s
+    let rest := Obj.run c r.2 ss
+    (r.1 :: rest.1, rest.2)
+
+end CTR
+
 end Mode
 end Model
